@@ -245,3 +245,50 @@ pub fn parse_script(text: &str) -> Result<String, String> {
         Err(e) => Err(format!("{}", e)),
     }
 }
+
+// ---------------------------------------------------------------- scripts
+
+thread_local! {
+    static SEQ_SCRIPT: RefCell<Option<HashMap<String, Vec<i32>>>> = RefCell::new(None);
+    static SEQ_COUNT: RefCell<HashMap<String, usize>> = RefCell::new(HashMap::new());
+    static WATCH: RefCell<Vec<String>> = RefCell::new(Vec::new());
+    static SEQ_TRACE: RefCell<Vec<(String, i32, Vec<String>)>> = RefCell::new(Vec::new());
+}
+
+/// scripted `run_proc` with a status *sequence* per pipeline text (the last status repeats) and a list
+/// of variables whose current values are recorded with every executed pipeline
+pub fn set_run_proc_seq(script: Option<HashMap<String, Vec<i32>>>, watch: Vec<String>) {
+    SEQ_SCRIPT.with(|s| *s.borrow_mut() = script);
+    SEQ_COUNT.with(|c| c.borrow_mut().clear());
+    WATCH.with(|w| *w.borrow_mut() = watch);
+    SEQ_TRACE.with(|t| t.borrow_mut().clear());
+}
+
+pub fn take_seq_trace() -> Vec<(String, i32, Vec<String>)> {
+    SEQ_TRACE.with(|t| std::mem::take(&mut *t.borrow_mut()))
+}
+
+pub fn scripted_run_proc_seq(sh: &mut Shell, line: &str) -> Option<CommandResult> {
+    let status = SEQ_SCRIPT.with(|s| {
+        s.borrow().as_ref().map(|m| {
+            let n = SEQ_COUNT.with(|c| {
+                let mut c = c.borrow_mut();
+                let e = c.entry(line.to_string()).or_insert(0);
+                *e += 1;
+                *e - 1
+            });
+            match m.get(line) {
+                Some(v) if !v.is_empty() => v[std::cmp::min(n, v.len() - 1)],
+                _ => 0,
+            }
+        })
+    })?;
+    let vals = WATCH.with(|w| w.borrow().iter().map(|n| sh.get_env(n).unwrap_or_default()).collect());
+    SEQ_TRACE.with(|t| t.borrow_mut().push((line.to_string(), status, vals)));
+    Some(CommandResult::from_status(0, status))
+}
+
+/// `scripting::run_lines` on a script text; returns the statuses of the collected results
+pub fn run_script_text(sh: &mut Shell, text: &str, args: &Vec<String>) -> Vec<i32> {
+    crate::scripting::run_lines(sh, text, args, false).iter().map(|c| c.status).collect()
+}
